@@ -123,3 +123,30 @@ PROPS = {
         "oracle": "Go race detector inside the simulation + panic capture + the family's sequential-semantics oracle",
     },
 }
+
+# strata added in the fourth session (DESIGN.md 5.2), appended to the rule texts
+_DOC = "document variations for every generated process: sequenceFlow elements reversed / shuffled / in front of the nodes, flow nodes in reverse document order, optional attributes spelled out with their default values"
+_ADD = {
+    "C01": "intermediate throw events as ordinary nodes (also in loops and sub-processes); " + _DOC,
+    "C02": "a token that comes into being at a non-interrupting boundary event while the host waits, tasks on both paths; " + _DOC,
+    "C03": "a parallel join fed by the 2..3 start events of a sub-process that a loop enters 1..3 times; " + _DOC,
+    "C04": "the first of two gateways reads the variables while a sibling's answer is stored (activities answered at the same moment); " + _DOC,
+    "C05": "the variable an inclusive fork's condition reads is written by a parallel branch while the token forks (either value accepted; never both flows, never none without an error trace); " + _DOC,
+    "C06": "the body nested in 1..2 sub-process levels; a timer among the alternatives (mock clock advanced by the event plan); a later catch event on the winning branch that listens for a losing alternative's event; " + _DOC,
+    "C07": "event and timer families with bodies nested in sub-processes; throw events; instances set going through ThrowAll; instances that are never started",
+    "C08": "a task requested again (loop) after the variable its property reads has changed, by a task in front of it or by its own previous answer; " + _DOC,
+    "C09": "the tracer's context cancelled while the senders are still at work (not through a relay); throw events in the engine programs",
+    "C10": "boundary events of kind message / escalation / error; bodies nested in sub-processes; the host answered with an error (no handler, skip, exit, retry then success); the matching event right after the host has completed (the moment the next request is seen, or a few ms after the answer while a burst of strangers keeps the tracer stuck behind a slow subscriber); " + _DOC,
+    "C11": "bodies nested in 1..2 sub-process levels; escalation and error definitions; 2..3 tokens waiting at one catch event that they reached over the same sequence flow; " + _DOC,
+    "C12": "sub-process content whose branches end each in its own way (end event, node without outgoing flow, exit decision, retries that run out), 1..2 levels, in a parallel branch or a loop (token game only); throw events in the wrapped programs",
+    "C13": "the timer catch event inside 1..2 sub-process levels; a reader that is away from the timer's channel until after the cancellation; a second timer due far in the future (year 9999 / 2300 / 2100) on the same clock",
+    "C14": "the body nested in sub-processes; escalation and error definitions; references that share what follows a colon; " + _DOC,
+    "C15": "throw events in the programs; riding along: seven small documents, each a plain process plus one lonely feature (a data object's body, properties / headers on the process element, a diagram, one formal condition, root elements)",
+    "C16": "initial variables from two WithVariables options, the first a map of defaults shared by all instances; reference paths that lead nowhere in less ordinary ways (negative, huge, non-numeric indexes, empty segments, path-language characters)",
+    "C17": "stress readers use every reading call of the locator (ApplyTo, the item-aware locators); throw events; nested event families",
+    "C18": "process bodies (throw events, catch events that message flows aim at) nested in sub-processes; a throw racing the catch event's first listening (both tasks answered at the same moment, throw events without message flow skew the two chains)",
+    "C19": "riding along: processes of other shapes (forks that join or not, sub-processes, several end events, throw events) handed to DefinitionBuilder.AddProcess and laid out",
+    "C20": "a snapshot taken at rest after snapshot calls that raced the draws; riding along: two million fallback generators in one program (four in the thorough tier)",
+}
+for _k, _v in _ADD.items():
+    PROPS[_k]["rule"] = PROPS[_k]["rule"] + " Further strata (fourth session): " + _v + "."
